@@ -115,7 +115,7 @@ def step(h, tier):
 # ---------------------------------------------------------------------------------------------------------------------
 def shards(tier):
     from mc.props import c18
-    return [s for s in c18.shards(tier) if s.get('kind') == 'lf' and s['mode'] == 'distinct'] + [{'kind': 'many-copies'}]
+    return [s for s in c18.shards(tier) if s.get('kind') == 'lf' and s['mode'] == 'distinct'] + [{'kind': 'many-copies'}, {'kind': 'reidentify'}]
 
 
 def cases(shard, tier):
@@ -125,9 +125,79 @@ def cases(shard, tier):
             for kind in ('zone', 'channel'):
                 yield {'many_copies': n, 'kind': kind}
         return
+    if shard.get('kind') == 'reidentify':
+        # the identity (origin reference) of 1..2 objects is changed between two writes of the same file object:
+        # the second file must define and refer to them under the new identity everywhere
+        for a in REIDENT_TARGETS:
+            yield {'reidentify': [a]}
+            for b in REIDENT_TARGETS:
+                if a < b:
+                    yield {'reidentify': [a, b]}
+        return
     for c in c18.cases(shard, tier):
         if c.get('wdata') is None:
             yield c
+
+
+REIDENT_TARGETS = ['A', 'C', 'F', 'G', 'LN', 'N', 'P', 'T', 'Z']
+
+
+def reidentify_spec():
+    return {'sul': {'max_record_length': 8192}, 'write': {}, 'ops': [
+        S.op_lf(), S.op_origin(), S.op_origin('O5', 'SECOND-ORIGIN', origin_reference=5),
+        S.op_add('zone', 'Z', 'ZONE'), S.op_add('axis', 'A', 'AXIS', coordinates=[1.0]),
+        S.op_add('long_name', 'LN', 'LNAME', quantity='some quantity'),
+        S.op_add('parameter', 'P', 'PARAM', zones=[{'$ref': 'Z'}], values=[1.5], long_name={'$ref': 'LN'}),
+        S.op_add('channel', 'C', 'CHAN', axis=[{'$ref': 'A'}], long_name={'$ref': 'LN'},
+                 data=S.arr_spec('uint8', [2], [1, 2])),
+        S.op_add('frame', 'F', 'FRAME', channels=[{'$ref': 'C'}]),
+        S.op_add('no_format', 'N', 'NOFORMAT'),
+        {'op': 'nfdata', 'lf': 'L0', 'nf': 'N', 'data': 'text payload'},
+        {'op': 'nfdata', 'lf': 'L0', 'nf': 'N', 'data': {'$bytes': '0102030405'}},
+        S.op_add('tool', 'T', 'TOOL', channels=[{'$ref': 'C'}], parameters=[{'$ref': 'P'}]),
+        S.op_add('group', 'G', 'GROUP', object_list=[{'$ref': 'Z'}, {'$ref': 'C'}, {'$ref': 'N'}]),
+        S.op_add('group', 'GG', 'GROUP-OF-GROUPS', group_list=[{'$ref': 'G'}], object_list=[{'$ref': 'F'}, {'$ref': 'T'}]),
+        S.op_add('calibration', 'CA', 'CALIB', calibrated_channels=[{'$ref': 'C'}], parameters=[{'$ref': 'P'}]),
+        S.op_add('splice', 'SP', 'SPLICE', output_channel={'$ref': 'C'}, zones=[{'$ref': 'Z'}]),
+        S.op_add('path', 'PT', 'PATH', frame_type={'$ref': 'F'}, value=[{'$ref': 'C'}]),
+        S.op_add('computation', 'CP', 'COMPUTATION', zones=[{'$ref': 'Z'}], axis=[{'$ref': 'A'}], source={'$ref': 'T'},
+                 values=[2.5]),
+    ]}
+
+
+def run_reidentify(case):
+    import os
+    from mc.engine import scratch_dir
+    sp = reidentify_spec()
+    b = S.build(sp)
+    if b.failed_at is not None:
+        return Outcome('harness', [("C07:harness:reidentify-spec-failed", b.status[-1])], False)
+    path = os.path.join(scratch_dir(), 'c07-reident.dlis')
+    viol = []
+    try:
+        b.df.write(path, **S.write_kwargs(sp, b))
+        extra = [{'op': 'origin_ref', 'h': h, 'value': 5} for h in case['reidentify']]
+        for op in extra:
+            st = S.apply_op(b, op)
+            if st != 'ok':
+                return Outcome('harness', [("C07:harness:origin-ref-op-failed", f"{st} | {case}")], False)
+        b.df.write(path, **S.write_kwargs(sp, b))
+        data = open(path, 'rb').read()
+    except Exception as e:  # noqa
+        return Outcome('reidentify:raised', [("C07:reidentify:valid-rejected", f"{type(e).__name__}: {e} | {case}")], True)
+    sp2 = dict(sp, ops=sp['ops'] + extra)
+    try:
+        lfs = R.split_logical_files(R.parse_physical(data))
+        m = M.Model(sp2)
+        mlf, lf = m.lfs[0], lfs[0]
+        errs = M.check_identity_and_refs(m, mlf, lf) + M.check_inventory(m, mlf, lf) + M.check_noformat(m, mlf, lf)
+        errs += [(c, d) for c, d in M.check_attrs(m, mlf, lf) if c.split(':')[0] in REF_CODES]
+        errs += M.check_rows(m, mlf, lf)
+        for code, d in errs:
+            viol.append((f"C07:reidentify:{code.split(':')[0]}", f"{d[:250]} | {case}"))
+    except R.FormatError as e:
+        viol.append((f"C07:reidentify:unparsable:{e.code}", f"{e} | {case}"))
+    return Outcome('ok:reidentify', viol, True, digest=sha(data))
 
 
 def many_copies_spec(case):
@@ -157,6 +227,8 @@ def run_case(case):
     if 'history' in case:
         return check_state(case['history'])
     from mc.props import c18
+    if 'reidentify' in case:
+        return run_reidentify(case)
     if 'many_copies' in case:
         sp = many_copies_spec(case)
         brief, fam = case, 'many-copies'
